@@ -215,3 +215,34 @@ claim("C44",
       "The real TransactionPool.Remember / checkPendingQueueSize / remember / ingest / checkSufficientFee / computeFeePerByte / addToPendingBlockEvaluator(Once) / rememberCommit(false) on a hand-built pool (txPoolMaxSize <= 4, numPendingWholeBlocks <= 3, symbolic fee multiplier, overflow / shutdown / no-evaluator flags, 0, 1 or 3 pending transactions) with a scripted block evaluator (nil / ErrNoSpace / other) and a group of one, two, or a single state-proof transaction with symbolic Fee / FirstValid / LastValid: "
       "Remember == nil => the evaluator accepted exactly this group (one call, or two when the first answer was ErrNoSpace, with one reset and numPendingWholeBlocks + 1), every member is alive (LastValid >= round + pending blocks, exact integers), every member pays at least the fee-per-byte threshold (except the free state-proof), the queue size limit held (or the one-time state-proof overflow slot was consumed), and pendingTxGroups / pendingTxids grew by exactly this group; on any error both collections are unchanged and nothing stays staged.",
       "Ledger.Latest, Transaction.ID (injective tag) and GetEncodedLength (per-transaction constant) are stubs; inputs bounded so the 64-bit threshold arithmetic cannot wrap. OnNewBlock / recomputeBlockEvaluator / AssembleBlock / rememberCommit(flush=true), the fee-multiplier update and the wait-for-ledger loop are outside: the claim is the admission rule of one Remember call, not the pool's evolution over blocks.")
+
+claim("C17",
+      "The real Trie.Add / Delete / RootHash / Commit / Evict and MakeTrie re-open over the real paged cache (node add/remove with leaf collapse, calculateHash, commit with page reallocation, evict, deferred page load, node/page (de)serialisation) with an in-memory committer, crypto.Hash an injective uninterpreted function, fully symbolic 2-byte keys (3-byte in thorough) and 2 (thorough 4) page configurations: "
+      "histories of 3 free Add/Delete operations - Add true iff absent, Delete true iff present, no errors, final root == root of a fresh trie filled in sorted order == an independent specification of the canonical root, empty set => zero digest; storage histories Add, action, op, action, op with actions Commit / Evict(true) / Evict(false) (refused iff dirty) / Reload / Crash (re-open without commit, ghost set rolls back), then root == specification, commit, re-open, same root, and a whole-trie walk that must load every stored node; deep scenarios: three filling Adds, Reload or Evict(true), then a free symbolic fourth operation. "
+      "A genuine defect found by the Evict scenario (evicted allocation page loses its nodes at the next commit) was repaired by a fix: commit in /repo and is recorded as fixed.",
+      "encodePage is replaced by a statement-for-statement copy writing into a right-sized buffer (the engine copies the 768 KB staging array on every store); VerifC17EncodePageModel runs the REAL encodePage on symbolic pages and asserts byte equality with the copy and a decodePage round trip. Outside: histories of 4+ free operations, longer keys, the SQLite committer, a crash in the middle of Commit.")
+
+claim("C41",
+      "The real msgp UnmarshalMsgWithState decoders of proposalValue, rawVote, unauthenticatedVote, voteAuthenticator, equivocationVoteAuthenticator, unauthenticatedBundle (fresh and re-used object), OneTimeSignature, committee.Credential (package agreement) and RewardsState (package bookkeeping) on inputs generated from a per-type schema taken from the codec tags - concrete msgpack marker bytes, symbolic payloads - in three modes: one node under attack (every class of that node's kind: 13 for uints, 25 for fixed byte arrays, 24 for structs, 12 for fixed arrays, 19 for slices incl. counts bound+1, 2^31, 2^32-1, any symbolic count above the bound, map-flattened counts), truncation at every token boundary and one byte after, and AllowableDepth from 0 to needed+1. "
+      "Decided: no panic; slice len and cap stay within the allocbound whether or not an error is returned; the decoder accepts exactly the inputs the schema reference accepts; consumed + remaining == input; every decoded leaf holds what the input denotes and untouched fields keep their pre-state; depth limit honoured. Raw complement: proposalValue on a fully symbolic buffer of up to 4 bytes (thorough 5) and on a real key followed by symbolic value bytes.",
+      "A fully symbolic raw buffer for the composite types is not practical (msgp's 256-entry lead-byte table costs seconds per query): the raw harnesses run with msgp.badPrefix/getType replaced by equivalent range comparisons, checked against the real table on all 256 bytes (VerifC41TypeTable). Slice counts >= 2^31 reach an engine-unsupported make (reported inconclusive on a mutated tree, not a pass). Quick attacks nodes at depth <= 1 of the composite types; thorough every node with every byte symbolic. Transaction / block decoders and the network tag dispatch are outside.")
+
+claim("C40",
+      "The real msgp MarshalMsg / UnmarshalMsg / Msgsize / MsgIsZero of proposalValue, rawVote, unauthenticatedVote, voteAuthenticator, equivocationVoteAuthenticator, unauthenticatedBundle (slice shapes nil, 1, 2, empty-but-not-nil), OneTimeSignature, Credential (agreement) and RewardsState, UpgradeVote (bookkeeping) against a reference canonical encoder driven by the struct tags as written in the type declarations (sorted keys, map header sized to non-omitted fields, omitempty / omitemptyarray rules, minimal-width integers, bin8/16/32, nil slices and maps): "
+      "MarshalMsg(x) equals the reference byte for byte, UnmarshalMsg(MarshalMsg(x)) == x with nothing left over, Msgsize is an upper bound, MsgIsZero agrees; the zero/non-zero pattern of every leaf and each integer's magnitude class are enumerated, contents symbolic. The reference encoder itself is checked against literal msgpack vectors.",
+      "EncodeReflect (go-codec reflection) is not encodable: agreement of the generated and reflection encoders is claimed only via the tag-derived reference. Quick uses the 2n+2 single-leaf patterns, thorough all subsets for n <= 8 and all magnitude rotations for n <= 15. Transactions, blocks and the remaining message types are outside.")
+
+claim("C07",
+      "Round trip of the persisted agreement state through the real generated codecs: player (all persisted scalars, Pending nil/empty, OldDeadline zero and non-zero), Deadline (all int64/int8 magnitude classes), vote, equivocationVote, proposalTracker (Duplicate nil/empty/one entry, proposalSeeker), voteTracker (Voters, Counts with inner Votes, Equivocators each nil/empty/one entry, proposalVoteCounter), proposalValue, rawVote: canonical bytes equal the tag-derived reference and decode(encode(x)) == x. "
+      "The real persistence.go encode()/decode() with reflect=false, a stub clock and a root router holding 0-2 children at symbolic rounds: children with rnd >= p.Round are kept and the others dropped, player and clock restored, the source router untouched.",
+      "diskState.Actions and the msgp-failure fallback (both reflection), messageEvent entries in Pending and maps with more than one entry are outside. player.lowestCredentialArrivals / dynamicFilterTimeout and proposalSeeker.lowestIncludingLate are not persisted by design (a restored node uses the default filter timeout until its history refills): a timing difference that the property's 'behaves identically' clause does not hold for, documented and not asserted. Crash-point atomicity of the SQLite write is outside (C09).")
+
+claim("C38",
+      "stateproof numReveals / verifyWeights / getSubExpressions and the coin generator's threshold / getNextCoin against an exact-integer oracle with no division (y = sw^2 + 2^(d+2) sw + 2^(2d), x = 3*2^16 (sw^2 - 2^(2d)), w = d*45426, accepted iff n(x + w y) >= (target*45427 + n P) y): getSubExpressions returns exactly y, x, w for symbolic 64-bit signed weight; verifyWeights nil <=> n <= 640 and the inequality, with P, n, target full 64-bit and the signed weight sampled per bit length (quick 5 lengths x 3 shapes, thorough all 64 x 5); zero weight refused; numReveals = (n, nil) => 1 <= n <= 640, n = floor(num/den)+1 and the inequality holds, error cases exact; real math/big with no stubs on small symbolic operands (sw < 5, thorough < 64) and a concrete grid; "
+      "coin threshold is the multiple of sw in (2^64 - sw, 2^64], a sample is rejected iff >= threshold, coin = sample mod sw < sw, a second call draws fresh samples.",
+      "In the wide harnesses the ten *big.Int methods used are engine-side stubs over a ghost table to exact integers (aliasing modelled; natively real math/big runs); two ring identities are assumed and grid-checked; the signed weight is sampled, not symbolic, wherever the code branches on the wide comparison; <= 2 rejections in the coin loop; SHAKE is a nondeterministic byte source. LnIntApproximation (floating point), CreateProof and coinIndex are outside. Observation (not production reachable at StateProofStrengthTarget = 256): numReveals takes Uint64() of the quotient without a fit check.")
+
+claim("C39",
+      "The real stateproof Verifier.Verify (tree depth checks, salt-version check down to the Falcon salt byte, buildCommittableSignature, the reveal and position loops, the coin range test) with up to 2 reveals and 2 positions: err == nil <=> a reference model holds - both tree depths <= 20, the weights oracle accepts (SignedWeight, lnProvenWeight, len(PositionsToReveal), target), the signature oracle accepts this round's message under that reveal's key, both vector-commitment oracles accept exactly the revealed leaves, and every position has a reveal with L <= coin < L + Weight in exact integers (the code additionally refuses a reveal whose L + Weight overflows 64 bits); on acceptance the coin generator was seeded once with (participants commitment, lnProvenWeight, SigCommit, SignedWeight, data) and exactly one coin was drawn per position. "
+      "The real coin seed ToBeHashed: byte layout, domain separator and injectivity; makeCoinGenerator stamps the version and absorbs exactly the seed.",
+      "verifyWeights (C38), Verifier.VerifyBytes, the fixed-length signature representation, merklearray.VerifyVectorCommitment (C37) and the coin stream are arbitrary consistent predicates / values (uninterpreted functions). Prover-side completeness (CreateProof => verifies), stateproof/verify.ValidateStateProof, the ledger apply path and more than 2 reveals are outside.")
